@@ -155,6 +155,21 @@ def m_bytes(ctx, args, kw):
                     raise PyRaise(ValueError, "bytes must be in range(0, 256)")
                 segs.append((x, 1, False))
             return simplify_native(Rope(segs))
+    if isinstance(v, (tuple, list)) and len(args) == 1 and not kw:
+        segs = []
+        for x in v:
+            x = simplify_native(x)
+            if type(x).__name__ == "LB":
+                x = x.as_int()
+            if isinstance(x, bool) or not (isinstance(x, int) or (is_sym(x) and z3.is_int(x))):
+                raise Undecided("bytes() of a sequence with non-integer items")
+            if is_sym(x):
+                if not ctx.branch(land(x >= 0, x < 256)):
+                    raise PyRaise(ValueError, "bytes must be in range(0, 256)")
+            elif not 0 <= x < 256:
+                raise PyRaise(ValueError, "bytes must be in range(0, 256)")
+            segs.append((x, 1, False))
+        return simplify_native(Rope(segs))
     if v is None:
         raise PyRaise(TypeError, "cannot convert 'NoneType' object to bytes")
     if hasattr(v, "sym_bytes"):
@@ -1147,3 +1162,24 @@ def m_next(ctx, args, kw):
 
 m_next.always = True
 NATIVE_MODELS[next] = m_next
+
+
+# ------------------------------------------------------------------ constant dict .get with a symbolic key
+def m_dict_get(ctx, selfv, args, kw):
+    if kw or len(args) not in (1, 2):
+        raise Undecided("dict.get call shape")
+    if not (len(selfv) <= 64 and all(isinstance(k, (int, str, bytes)) for k in selfv)):
+        raise Undecided("dict.get on a table that is not small and plainly keyed")
+    # (a module / class level dict that the package also WRITES never gets here: it is ProgramState)
+    key = simplify_native(args[0])
+    default = simplify_native(args[1]) if len(args) == 2 else None
+    r = E.table_term(ctx, selfv, key, default)
+    if r is not None:
+        return r
+    for k in selfv:
+        if ctx.branch(E.value_eq(ctx, key, k)):
+            return E.lift_native(ctx, selfv[k])
+    return default
+
+
+NATIVE_MODELS[(dict, "get", "inst")] = m_dict_get
